@@ -196,6 +196,7 @@ Class(op, a, b, c) ==
     [] op \in {"madd", "msub"} /\ ~Fits64(IF op = "madd" THEN Add(a, b) ELSE Sub(a, b)) -> "sum-beyond-64-bits"
     [] op \in {"/", "//", "%", "./", "roundm"} /\ IsZero(b) -> "zero-divisor"
     [] op \in {"+", "-"} /\ (IsMin(a) \/ IsMin(b)) -> "min-int64-operand"
+    [] op = "*" /\ ~Fits64(Mul(a, b)) /\ Cmp(Abs(Mul(a, b)), Add(TwoTo63, FromInt(4096))) < 0 -> "product-barely-beyond-64-bits"
     [] op \in {"neg", "abs"} /\ IsMin(a) -> "min-int64-operand"
     [] op \in {"abs", "ceil", "floor", "round"} /\ Beyond53(a) -> "operand-beyond-2^53"
     [] op \in {"/", "//"} /\ IsMin(a) /\ b = Neg(One) -> "min-int64-by-minus-one"
